@@ -321,7 +321,7 @@ func init() {
 		Rule:        "E1 over cookie-holder subsets x {recover-end, UpdatePassword} x new-password classes (equal, last-byte, case, non-ASCII, 72 and 73 bytes, one char); probe battery on clones of every distinct state after a completed change (real logins, real cookie requests, stored-field inspection, token replay, bystander); classes = change kinds and probe kinds",
 		Units: func(tier string) []engine.Unit {
 			scs := c06Scenarios(tier)
-			return e1Units(append(scs, configVariants(scs[:1], tier, "err500", "nil-state", "json")...))
+			return e1Units(append(scs, configVariants(scs[:1], tier, "err500", "nil-state", "json", "app-recover-hook")...))
 		},
 		Need:        []string{"change-completed:recover", "change-completed:update", "change-with-outstanding-cookies", "probe:pre-change-cookie", "probe:login-old", "probe:replayed-recover-token"},
 		Assumptions: []string{"bcrypt's 72-byte input limit is a property of the hash: 'another password' always differs within the first 72 bytes", "bounded depth, 2 accounts, 3 browsers"},
